@@ -845,4 +845,108 @@ theorem fillIn_request (k : KnownLibs) (dn : Str) (d : DebugId) (known : RLib)
   simp only [h]
   rw [absorb_path_of_none _ _ rfl]; exact hp
 
+/-! ### the completed library info of a request that names a known library -/
+
+/-- `fillCode` on an info whose identity fields are all present only ever fills `arch` -/
+theorem fillCode_full (k : KnownLibs) (v : RLib) (dn : Str) (d : DebugId) (dp n p : Str)
+    (h1 : v.debugName = some dn) (h2 : v.debugId = some d) (h3 : v.debugPath = some dp) (h4 : v.name = some n)
+    (h5 : v.path = some p) : ∃ a, fillCode k v = { v with arch := a } := by
+  obtain ⟨vdn, vd, vdp, vn, vc, vp, va⟩ := v
+  simp only at h1 h2 h3 h4 h5
+  subst h1 h2 h3 h4 h5
+  unfold fillCode
+  cases hl : lookupCode k _ with
+  | none => exact ⟨va, rfl⟩
+  | some known =>
+    cases vc with
+    | none => simp [lookupCode] at hl
+    | some c => exact ⟨va.orElse fun _ => known.arch, by simp [absorbOpt, RLib.absorb]⟩
+
+theorem fillDebug_request (k : KnownLibs) (l : LibInfo)
+    (h : k.byDebug.find? (l.debugName, l.debugId) = some l.view) :
+    fillDebug k (requestFor l.debugName l.debugId) = l.view := by
+  unfold fillDebug requestFor
+  simp only [h]
+  simp [RLib.absorb, RLib.empty, LibInfo.view]
+
+theorem debugCandsOf_arch (v : RLib) (a : Option Str) : debugCandsOf { v with arch := a } = debugCandsOf v := rfl
+
+theorem candidatesForDebugFile_known (k : KnownLibs) (l : LibInfo)
+    (h : k.byDebug.find? (l.debugName, l.debugId) = some l.view) :
+    candidatesForDebugFile k (requestFor l.debugName l.debugId) = debugCandsOf l.view := by
+  unfold candidatesForDebugFile fillIn
+  rw [fillDebug_request k l h]
+  obtain ⟨a, ha⟩ := fillCode_full k l.view l.debugName l.debugId l.debugPath l.name l.path rfl rfl rfl rfl rfl
+  rw [ha, debugCandsOf_arch]
+
+/-! ### first accepted candidate -/
+
+theorem firstAccepted_append_of_none (fs : FsView) (d : DebugId) (pre post : List Cand)
+    (h : ∀ c ∈ pre, fs c ≠ some d) : firstAccepted fs d (pre ++ post) = firstAccepted fs d post := by
+  unfold firstAccepted
+  rw [List.find?_append]
+  have : pre.find? (fun c => fs c == some d) = none := by
+    rw [List.find?_eq_none]; intro c hc; simpa using h c hc
+  rw [this]; rfl
+
+theorem firstAccepted_cases (fs : FsView) (d : DebugId) (pre : List Cand) (x : Cand) (post : List Cand)
+    (hx : fs x = some d) :
+    ∃ c, firstAccepted fs d (pre ++ [x] ++ post) = some c ∧ fs c = some d ∧ (c = x ∨ c ∈ pre) := by
+  unfold firstAccepted
+  rw [List.append_assoc, List.find?_append]
+  cases hp : pre.find? (fun c => fs c == some d) with
+  | some c =>
+    refine ⟨c, rfl, ?_, Or.inr (List.mem_of_find?_eq_some hp)⟩
+    have := List.find?_some hp; simpa using this
+  | none =>
+    refine ⟨x, ?_, hx, Or.inl rfl⟩
+    simp [hx]
+
+/-! ### key names -/
+
+theorem camelCase_readerField (k : Key) : camelCase k.readerField = k.writerText := by
+  cases k <;> decide
+
+theorem ofText_writerText (k : Key) : Key.ofText k.writerText = some k := by
+  cases k <;> decide
+
+theorem ofText_eq_some (s : Str) (k : Key) (h : Key.ofText s = some k) : s = k.writerText := by
+  unfold Key.ofText at h
+  have := List.find?_some h
+  rw [← camelCase_readerField]; have h2 : camelCase k.readerField = s := by simpa using this
+  exact h2.symm
+
+theorem resolveObj_serializeLibText (l : LibInfo) : resolveObj (serializeLibText l) = serializeLib l := by
+  simp [resolveObj, serializeLibText, serializeLib, ofText_writerText]
+
+theorem resolve_serializeProfileText (p : Profile) :
+    (serializeProfileText p).resolve = serializeProfile p := by
+  have h1 : ∀ ls : List LibInfo, (ls.map serializeLibText).map resolveObj = ls.map serializeLib := by
+    intro ls; rw [List.map_map]; apply List.map_congr_left; intro l _; exact resolveObj_serializeLibText l
+  have h2 : ∀ n : Nat, (List.replicate n ([] : List TObj)).map (·.map resolveObj) = List.replicate n [] := by
+    intro n; simp
+  unfold serializeProfileText serializeProfile
+  simp only [TDoc.resolve, TDoc.resolveAll, h1, h2]
+
+/-! ### the converter's identity -/
+
+theorem fromIdentifierLE_wf (id : List Nat) (h : IsBytes id) : (DebugId.fromIdentifierLE id).WF := by
+  unfold DebugId.fromIdentifierLE
+  have hb : IsBytes (id.take 16 ++ List.replicate (16 - (id.take 16).length) 0) := by
+    intro b hb
+    rcases List.mem_append.1 hb with h1 | h1
+    · exact h b (List.mem_of_mem_take h1)
+    · have := List.eq_of_mem_replicate h1; omega
+  generalize id.take 16 ++ List.replicate (16 - (id.take 16).length) 0 = d at hb
+  simp only
+  split
+  · rename_i a0 a1 a2 a3 a4 a5 a6 a7 a8 a9 a10 a11 a12 a13 a14 a15
+    refine ⟨rfl, ?_, by decide⟩
+    intro b hb'
+    have hall : ∀ x ∈ [a0, a1, a2, a3, a4, a5, a6, a7, a8, a9, a10, a11, a12, a13, a14, a15], x < 256 := hb
+    simp only [List.mem_cons, List.not_mem_nil, or_false] at hb' hall
+    rcases hb' with h | h | h | h | h | h | h | h | h | h | h | h | h | h | h | h <;> subst h <;>
+      (apply hall; simp)
+  · exact ⟨by decide, by decide, by decide⟩
+
 end LI
